@@ -87,6 +87,11 @@ func (s *Srv) Do(c *Call) *Call {
 	}
 	c.Txns = Mon.Begins() - b0
 	c.Leaked = []int{}
+	if c.St == "TIMEOUT" { // Exec's own watchdog gave up: the instance is wedged as well
+		s.Wedged = true
+		c.Leaked = Mon.Held()
+		return c
+	}
 	if c.St != "PANIC" {
 		c.FreeB2, c.FreeI2 = s.Free()
 		if s.Sequential {
